@@ -1278,7 +1278,7 @@ def replay(rp) -> int:
 
 
 META = {
-    "text": ("Coq theorems (coq/Props/C03.v, 19 statements incl. start <= stop of every sampled/cross-CRS region, all closed under the global context) over a Gallina model of "
+    "text": ("Coq theorems (coq/Props/C03.v, 20 statements incl. start <= stop of every sampled/cross-CRS region, all closed under the global context) over a Gallina model of "
              "odc/geo/overlap.py: compute_axis_overlap for ALL image sizes and ALL rational scales s != 0 (mirrored, fractional) "
              "and shifts: both slices inside their images, every destination pixel whose centre maps inside the source is in the "
              "destination slice and its source pixel floor(s(d+1/2)+t) in the source slice, non-overlapping images give empty "
